@@ -286,6 +286,35 @@ def sector_empty(rng, sector):
     return pp.create_empty_network("empty " + sector, sector=Sector(sector))
 
 
+def empty_tables_user_columns(rng, populated=True):
+    """tables WITHOUT rows that carry user-defined columns of every dtype, a changed dtype of a component column and
+    a re-ordered column set - next to populated tables (or in an otherwise empty net)"""
+    import pandas as pd
+    import pandapipes as pp
+    net = pp.create_empty_network("empty tables with user columns", fluid="water")
+    if populated:
+        j = pp.create_junctions(net, 3, 5.0, 300.0)
+        pp.create_ext_grid(net, j[0], 5.0, 300.0)
+        pp.create_pipes_from_parameters(net, [j[0], j[1]], [j[1], j[2]], 0.5, 100.0)
+        pp.create_sink(net, j[2], 0.3)
+    dtypes = [("u_float", "float64"), ("u_int", "int64"), ("u_bool", "bool"), ("u_obj", object), ("u_i32", "int32")]
+    empties = [t for t in ("source", "valve", "pump", "heat_exchanger", "mass_storage", "compressor", "flow_control",
+                           "press_control", "heat_consumer", "circ_pump_mass", "circ_pump_pressure") if t in net and len(net[t]) == 0]
+    if not populated:
+        empties += ["junction", "pipe", "sink", "ext_grid"]
+    for i, t in enumerate(empties):
+        col, dt = dtypes[i % len(dtypes)]
+        net[t][col] = pd.Series(dtype=dt)
+        if i % 3 == 0:
+            col2, dt2 = dtypes[(i + 2) % len(dtypes)]
+            net[t]["second_" + col2] = pd.Series(dtype=dt2)
+    # a component column with a non-default dtype and a re-ordered column set on empty tables
+    if "scaling" in net.source.columns:
+        net.source["scaling"] = net.source["scaling"].astype("float32")
+    net.valve = net.valve[list(net.valve.columns[::-1])]
+    return net
+
+
 def failed_run(rng):
     """a net whose last pipeflow did not converge (converged flag False) and a default-created mass storage"""
     import pandapipes as pp
@@ -307,6 +336,8 @@ BUILDERS = [("all_components_water", lambda r: all_components(r, "water")),
             ("heat_net", heat_net), ("mass_pump_net", mass_pump_net), ("odd_cells", odd_cells),
             ("custom_fluid", custom_fluid), ("custom_gas", custom_gas), ("with_controller", with_controller),
             ("failed_run", failed_run), ("empty_net", empty_net),
+            ("empty_tables_user_columns", empty_tables_user_columns),
+            ("only_empty_tables_user_columns", lambda r: empty_tables_user_columns(r, populated=False)),
             ("sector_heat", lambda r: sector_net(r, "heat")), ("sector_gas", lambda r: sector_net(r, "gas")),
             ("sector_water", lambda r: sector_net(r, "water")), ("sector_none", lambda r: sector_net(r, "None")),
             ("sector_empty_heat", lambda r: sector_empty(r, "heat")), ("sector_empty_gas", lambda r: sector_empty(r, "gas")),
